@@ -21,6 +21,11 @@ PANIC_FN = re.compile(r"^(core|std)::panicking::|^std::rt::begin_panic|^core::pa
 UNCHECKED_INT = re.compile(r"^core::num::<impl i64>::(abs|pow|neg|div_euclid|rem_euclid|next_power_of_two|isqrt|saturating_div|wrapping_div|wrapping_rem|overflowing_div|overflowing_rem|wrapping_div_euclid|wrapping_rem_euclid|ilog|ilog2|ilog10)$")
 
 
+def nclo(path):
+    """Def path with closure indices erased: keys must survive the removal / addition of an unrelated closure in the same function."""
+    return re.sub(r"\{closure#\d+\}", "{closure}", path)
+
+
 def abort_calls(mir, body):
     """(block index, macro, line) for diverging calls into the panic machinery coming from an abort macro."""
     out = []
@@ -130,7 +135,7 @@ def run(rep):
         P = preds_of(b)
         for (bi, mac, line) in sites:
             chain = variant_chain(b, bi, P)
-            base = "%s|%s|%s" % (b["path"], mac, ">".join(chain) if chain else "-")
+            base = "%s|%s|%s" % (nclo(b["path"]), mac, ">".join(chain) if chain else "-")
             counts[base] += 1
             key = base if counts[base] == 1 else "%s#%d" % (base, counts[base])
             where = "%s:%d" % (b["file"], line)
@@ -152,10 +157,10 @@ def run(rep):
     )
     from .c18_tables import SAFE_ARITH
 
+    n_in_fn = defaultdict(int)  # per function with closure indices erased: `f::{closure#2}` and `f::{closure#3}` share their ordinals
     for b in mir.bodies:
         if b["path"] not in lp:
             continue
-        n_in_fn = defaultdict(int)
         for bi, bl in enumerate(b["blocks"]):
             t = bl["t"]
             site = None
@@ -185,7 +190,7 @@ def run(rep):
             if site is None:
                 continue
             op, line = site
-            base = "%s|%s" % (b["path"], op)
+            base = "%s|%s" % (nclo(b["path"]), op)
             n_in_fn[base] += 1
             key = base if n_in_fn[base] == 1 else "%s#%d" % (base, n_in_fn[base])
             where = "%s:%d" % (b["file"], line)
@@ -194,9 +199,10 @@ def run(rep):
             if safe:
                 continue
             rep.violation("P2", key, "unchecked i64 %s in reachable code" % op, where)
+    known_fns = {nclo(pth) for pth in mir.by_path}
     for k in SAFE_ARITH:
         fn = k.split("|")[0]
-        if fn not in mir.by_path:
+        if fn not in known_fns:
             rep.error("stale entry in the reviewed arithmetic table: %s" % k)
 
     # ---------------- P4 ill-formed size intervals (assert!(min <= max) in Intervals::union_interval)
